@@ -348,7 +348,7 @@ def run_shard(params: dict, ctx) -> None:
     cfgs = gen.all_configs()
     reclimit = sys.getrecursionlimit()
     for cfg in cfgs:
-        if ctx.viol_total > 500:
+        if ctx.should_stop(500):
             return
         sproto = cfg.stream_protocol()
         for it in range(params["iters"]):
